@@ -114,9 +114,7 @@ func (r *FnRun) execInstr(st *State, in ssa.Instruction, b *ssa.BasicBlock) bool
 		p := r.allocObj(st, x.Comment)
 		et := derefType(x.Type())
 		r.store(st, p, zeroVal(et))
-		if kindOf(et) == KOpaque {
-			// opaque contents: nothing to initialise
-		}
+		r.initGhost(st, p, et, 0)
 		r.assumeTy(st, p, x.Type())
 		st.vals[x] = refVal(p, x.Type())
 	case *ssa.FieldAddr:
@@ -194,6 +192,7 @@ func (r *FnRun) execInstr(st *State, in ssa.Instruction, b *ssa.BasicBlock) bool
 	case *ssa.Phi:
 		// handled at block entry
 	case *ssa.Call:
+		r.assertAt(st, x, &x.Call)
 		res := r.execCall(st, x, &x.Call, x.Type())
 		if st.panicked {
 			return false
@@ -225,6 +224,9 @@ func (r *FnRun) execInstr(st *State, in ssa.Instruction, b *ssa.BasicBlock) bool
 	case *ssa.Send:
 		r.execSend(st, x)
 	case *ssa.Select:
+		if x.Blocking {
+			r.assertAtName(st, x, "select", nil)
+		}
 		r.execSelect(st, x)
 	case *ssa.MapUpdate:
 		r.execMapUpdate(st, x)
@@ -890,3 +892,93 @@ func (r *FnRun) seqOfArrayPtr(st *State, p string, n int64) string {
 }
 
 var _ = strings.Contains
+
+// initGhost sets the ghost fields of a freshly allocated object (and of the
+// struct values nested in it) to their defaults.
+func (r *FnRun) initGhost(st *State, p string, t types.Type, depth int) {
+	if t == nil || depth > 3 {
+		return
+	}
+	tk := typeKey(t)
+	if tk != "" {
+		for k, gf := range r.W.Specs.GhostFields {
+			if strings.HasPrefix(k, tk+".") && k == tk+"."+gf.Name {
+				cell := sx("fld", p, fmt.Sprint(gf.ID))
+				switch gf.Sort {
+				case "Int":
+					r.setHeap(st, "I", sx("store", st.heap["I"], cell, "0"))
+				case "Bool":
+					r.setHeap(st, "B", sx("store", st.heap["B"], cell, "false"))
+				case "Ref":
+					r.setHeap(st, "R", sx("store", st.heap["R"], cell, "null"))
+				case "BSeq":
+					r.setHeap(st, "S", sx("store", st.heap["S"], cell, "bempty"))
+				}
+			}
+		}
+	}
+	if s, ok := t.Underlying().(*types.Struct); ok && !isTimeTime(t) {
+		for i := 0; i < s.NumFields(); i++ {
+			if _, isStruct := s.Field(i).Type().Underlying().(*types.Struct); isStruct {
+				r.initGhost(st, sx("fld", p, fmt.Sprint(i)), s.Field(i).Type(), depth+1)
+			}
+		}
+	}
+}
+
+// assertAt: contract clauses attached to call sites (assert_at CALLEE [label] expr).
+func (r *FnRun) assertAt(st *State, site ssa.Instruction, call *ssa.CallCommon) {
+	if r.C == nil || len(r.C.AssertAt) == 0 || st.inl != nil {
+		return
+	}
+	name := ""
+	if call.IsInvoke() {
+		name = "(" + types.TypeString(call.Value.Type(), nil) + ")." + call.Method.Name()
+	} else if f := call.StaticCallee(); f != nil {
+		name = f.String()
+	} else {
+		return
+	}
+	var args []Val
+	if call.IsInvoke() {
+		args = append(args, r.val(st, call.Value))
+	}
+	for _, a := range call.Args {
+		args = append(args, r.val(st, a))
+	}
+	r.assertAtName(st, site, name, args)
+}
+
+func (r *FnRun) assertAtName(st *State, site ssa.Instruction, name string, args []Val) {
+	if r.C == nil || st.inl != nil {
+		return
+	}
+	for _, aa := range r.C.AssertAt {
+		if !strings.Contains(name, aa.Callee) {
+			continue
+		}
+		env := &Env{r: r, st: st, old: r.entry, vars: map[string]Val{}, fn: r.Fn, pkg: r.entryEnv.pkg}
+		for k, v := range r.entryEnv.vars {
+			env.vars[k] = v
+		}
+		for i, a := range args {
+			env.vars[fmt.Sprintf("arg%d", i)] = a
+		}
+		g := env.eval(aa.Clause.Expr)
+		if env.err != nil {
+			r.errorf("%s:%d: %v", aa.Clause.File, aa.Clause.Line, env.err)
+			return
+		}
+		props := r.C.Serves
+		if len(aa.Clause.Props) > 0 {
+			props = aa.Clause.Props
+		}
+		lbl := aa.Clause.Name
+		if lbl == "" {
+			lbl = sanitize(aa.Callee)
+		}
+		o := r.oblig(st, "assert", lbl, site, g.S, "assertion at "+aa.Callee+": "+aa.Clause.Src, props)
+		o.Clause = aa.Clause.Src
+		st.assume(g.S)
+	}
+}
